@@ -134,7 +134,8 @@ uint DAC_VLS::access(uint pos, uint **seq) const {
   sequence[j] = get_field(levels, base_bits, ini);
   l_seq = 1;
 
-  while (bitget(((BitSequenceRG *)bS)->data, ini)) {
+  // (with a single level the bit at 'ini' is the guard bit, not a continuation)
+  while ((j < (uint)nLevels - 1) && bitget(((BitSequenceRG *)bS)->data, ini)) {
     rankini = bS->rank1(ini) - rankLevels[j];
     j++;
 
